@@ -694,6 +694,18 @@ def fam_enum(tier, seed):
             # only conditional enums may carry cfg attributes: keep the attribute stack on an otherwise plain enum out of this shape
             continue
         add(e_, tags=["conditional", "stacked-cfg"])
+    # two alternatives for one value: the earlier one carries several cfg attributes (first true, a later one false) and is compiled out, the later one is live
+    for bits in (2, 3, 12):
+        e_ = make_enum("E", bits, [0, 1, 1, 2, 2, 3], "conditional", cfg=[None, False, True, False, None, True], names=["Z", "A_off", "A_on", "B_off", "B_on", "C"])
+        e_["variants"][1] = dict(e_["variants"][1], pre_attrs=["#[cfg(all())]"])
+        e_["variants"][3] = dict(e_["variants"][3], pre_attrs=["#[cfg(all())]", "#[cfg(not(any()))]"])
+        add(e_, tags=["conditional", "stacked-cfg", "many-alternatives"])
+    # wide conditional enums whose unconditional variants share a set bit / a clear bit that a compiled-in cfg variant does not share
+    for bits in (9, 12, 16, 24, 33, 64):
+        space = 1 << bits
+        hi = 1 << (bits - 1)
+        add(make_enum("E", bits, [hi | 1, hi | 3, 2, hi | 5, 0], "conditional", cfg=[None, None, True, None, False], radix="hex"), tags=["conditional", "shared-bit"])
+        add(make_enum("E", bits, [1, 3, space - 2, 5, hi], "conditional", cfg=[None, None, True, None, True], radix="hex"), tags=["conditional", "shared-bit"])
     # conditional enums listing exactly 2^N variants of which one is compiled out
     for bits in (1, 2, 3):
         space = 1 << bits
@@ -1089,6 +1101,36 @@ def handwritten_mixed():
     out.append(bitfield_case("mh_empty0", "mixed", 32, [], name="Reg"))
     out.append(bitfield_case("mh_empty1", "mixed", 8, [], name="Reg", debug=True, default=default_spec(3)))
     out.append(bitfield_case("mh_empty2", "mixed", 100, [], name="Reg", debug=True))
+    # views: a field whose range is exactly tiled by fields declared before it (most significant part first, least significant first, three parts), and the reverse order
+    out.append(bitfield_case("mh_view0", "mixed", 16, [uint_field("major", [(12, 15)]), uint_field("minor", [(8, 11)]), uint_field("version", [(8, 15)]), uint_field("lo", [(0, 3)]), uint_field("mid", [(4, 7)], access="r"), uint_field("low_byte", [(0, 7)])], name="Reg"))
+    out.append(bitfield_case("mh_view1", "mixed", 32, [uint_field("c", [(8, 11)]), uint_field("a", [(0, 3)]), uint_field("b", [(4, 7)]), uint_field("abc", [(0, 11)], access="r"), uint_field("whole", [(0, 31)]), sint_field("top", [(24, 31)]), uint_field("t_hi", [(28, 31)]), uint_field("t_lo", [(24, 27)]),
+                                                  bool_field("t_sign", 31, access="r")], default=default_spec(0x8421_1248), name="Reg"))
+    out.append(bitfield_case("mh_view2", "mixed", 64, [uint_field("w1", [(32, 63)]), uint_field("w0", [(0, 31)]), uint_field("all", [(0, 63)]), uint_field("h", [(16, 31)], array=arr(2, 32)), uint_field("h1", [(48, 63)], access="r"), uint_field("b", [(8, 15)], array=arr(4, None, 8)), uint_field("b2", [(24, 31)]),
+                                                  uint_field("b0", [(8, 15)], access="r")], name="Reg"))
+    out.append(bitfield_case("mh_view3", "mixed", 24, [uint_field("code", [(4, 11)]), bool_field("flag", 9), uint_field("nib", [(8, 11)]), uint_field("crumb", [(6, 7)], access="r"), uint_field("gain", [(12, 15)], array=arr(3, None, 4)), uint_field("gain1", [(16, 19)]), uint_field("gain2", [(20, 23)], access="r")], name="Reg"))
+    # command registers: exactly one writable field (write-only), every other bit covered by read-only fields
+    for k, (base, lo, w) in enumerate(((8, 0, 4), (16, 4, 8), (32, 0, 8), (32, 24, 8), (64, 16, 32), (24, 8, 8), (128, 64, 64), (9, 3, 3))):
+        fs = []
+        if lo > 0:
+            fs.append(uint_field("status_lo", [(0, lo - 1)], access="r"))
+        fs.append((sint_field if (w in NATIVE and k % 2) else uint_field)("command", [(lo, lo + w - 1)], access="w"))
+        if lo + w < base:
+            rest = base - lo - w
+            if rest > 64:
+                fs.append(uint_field("status_mid", [(lo + w, lo + w + 63)], access="r"))
+                fs.append(uint_field("status_hi", [(lo + w + 64, base - 1)], access="r")) if lo + w + 64 < base else None
+                fs = [f for f in fs if f]
+            else:
+                fs.append(uint_field("status_hi", [(lo + w, base - 1)], access="r"))
+        out.append(bitfield_case("mh_cmd%d" % k, "mixed", base, fs, name="Reg", default=(default_spec((1 << base) - 1) if k % 3 == 0 else None)))
+    # accepted spellings of a list: under `bit(`, single-entry lists
+    f1 = dict(uint_field("scr", [(9, 9), (2, 2), (12, 12), (5, 5)]), attr_text="#[bit([9, 2, 12, 5], rw)]")
+    f2 = dict(uint_field("one", [(3, 3)]), attr_text="#[bits([3], rw)]", form="list")
+    f3 = dict(bool_field("flag", 4), attr_text="#[bit([4], rw)]")
+    f4 = dict(uint_field("pair", [(6, 6), (8, 8)], array=arr(2, 1)), attr_text="#[bit([6, 8], rw, stride = 1)]")
+    f5 = dict(uint_field("rng", [(10, 11)]), attr_text="#[bits([10..=11], rw)]", form="list")
+    f6 = dict(sint_field("desc", [(15, 15), (14, 14), (13, 13), (1, 1), (0, 0), (23, 23), (22, 22), (21, 21)]), attr_text="#[bit([15, 14, 13, 1, 0, 23, 22, 21], rw)]")
+    out.append(bitfield_case("mh_spell", "mixed", 24, [f1, f2, f3, f4, f5, f6], name="Reg", default=default_spec(0)))
     # one-bit fields spelled as a range (lo == hi)
     f1 = uint_field("x", [(3, 3)])
     f1["form"] = "bits"
@@ -1164,6 +1206,34 @@ def fam_bld(tier, seed):
             cases.append(bitfield_case("bh_%04d" % n, "bld", base, [uint_field("split", [(0, q - 1), (base - q, base - 1)]), uint_field("status", [(q, base - q - 1)], access="r")],
                                        default=default_spec(rng0.getrandbits(base) | 1 << q), name="Reg"))
             n += 1
+        # arrays under a literal default whose element 0 is zero while later elements are not (and the reverse)
+        if base >= 32:
+            K = base // 8
+            dv = 0
+            for i in range(1, K):
+                dv |= (0xA5 ^ (i * 0x1B) & 0xFF | 1) << (8 * i)
+            cases.append(bitfield_case("be_%04d" % n, "bld", base, [uint_field("e", [(0, 7)], array=arr(K, None, 8))], default=default_spec(dv & ((1 << base) - 1)), name="Reg"))
+            n += 1
+            cases.append(bitfield_case("be_%04d" % n, "bld", base, [sint_field("e", [(0, 7)], array=arr(K // 2, 16)), uint_field("o", [(8, 11)], array=arr(K // 2, 16))],
+                                       default=default_spec(dv & ((1 << base) - 1)), name="Reg"))
+            n += 1
+            cases.append(bitfield_case("be_%04d" % n, "bld", base, [uint_field("e", [(4, 6)], array=arr(K, 8))], default=default_spec(((1 << base) - 1) & ~0x70), name="Reg"))
+            n += 1
+        # two interleaved strided arrays covering the base, the one that starts at bit 0 declared second (no default: complete coverage)
+        if base % 16 == 0:
+            K = base // 8
+            cases.append(bitfield_case("bi_%04d" % n, "bld", base, [uint_field("odd", [(4, 7)], array=arr(K, 8)), uint_field("even", [(0, 3)], array=arr(K, 8))], name="Reg"))
+            n += 1
+            K2 = base // 16
+        if base % 16 == 0 and base >= 32:
+            cases.append(bitfield_case("bi_%04d" % n, "bld", base, [uint_field("hi", [(8, 15)], array=arr(K2, 16)), uint_field("lo", [(0, 7)], array=arr(K2, 16))], name="Reg"))
+            n += 1
+            cases.append(bitfield_case("bi_%04d" % n, "bld", base, [sint_field("hi", [(8, 15)], array=arr(K2, 16), access="w"), uint_field("lo", [(0, 7)], array=arr(K2, 16))], default=default_spec(1 << (base - 1)), name="Reg"))
+            n += 1
+        if base >= 64:
+            # byte arrays with strides 24 and 32 (byte-granular but not dense)
+            cases.append(bitfield_case("bi_%04d" % n, "bld", base, [uint_field("b24", [(8, 15)], array=arr(2, 24)), uint_field("b32", [(0, 7)], array=arr(2, 32), access="w")], default=default_spec((1 << base) - 1), name="Reg"))
+            n += 1
         # write-only flags and a strobe next to a default (every writable field, whatever its kind, is a builder step)
         if base >= 8:
             cases.append(bitfield_case("bw_%04d" % n, "bld", base, [bool_field("strobe", 0, access="w"), uint_field("u1w", [(1, 1)], access="w"), bool_field("rwb", 2), bool_field("many", 3, access="w", array=arr(3, None, 1)),
@@ -1222,12 +1292,26 @@ def fam_dbgf(tier, seed):
     cases.append(bitfield_case("dw_%04d" % n, "dbgf", 32, [uint_field("type_", [(0, 3)]), bool_field("loop_", 4), uint_field("_reserved", [(5, 6)], access="r"), uint_field("self_", [(7, 8)]), uint_field("__", [(9, 12)]),
                                                           uint_field("mode_", [(13, 14)]), uint_field("_", [(15, 16)]) if False else uint_field("a_", [(15, 16)])], debug=True, name="Names"))
     n += 1
+    # by-value trait methods named like the fields, implemented for the struct in the scope of its declaration (method resolution inside the generated code must still find the getters)
+    for base in (16, 100):
+        c = bitfield_case("dt_%04d" % n, "dbgf", base, [uint_field("state", [(0, 3)]), bool_field("ready", 4), sint_field("level", [(8, 15)]), uint_field("val", [(5, 6)]), uint_field("len", [(7, 7)], access="r")], debug=True, name="Hij", default=default_spec(0x1234))
+        c["byvalue_trait"] = True
+        cases.append(c)
+        n += 1
     # a single field of a custom type that is the whole bitfield (a "newtype" in shape, still printed as a struct with a named field)
     for base, kind in ((8, "nested"), (16, "nested"), (8, "enum"), (16, "optenum"), (2, "enum"), (24, "nested"), (3, "optenum"), (128, "nested")):
         h = nested_def("In", base) if kind == "nested" else std_enum("Ex", base, kind == "enum")
         f = nested_field("inner", [(0, base - 1)], h) if kind == "nested" else enum_field("inner", [(0, base - 1)], h)
         cases.append(bitfield_case("dn_%04d" % n, "dbgf", base, [f], helpers=[h], debug=True, name="Wrap", default=(default_spec(0) if base % 16 == 0 else None)))
         n += 1
+    # fields with identical ranges whose types render differently (enum / integer, unsigned / signed, nested / integer), both orders
+    e_s = std_enum("Speed", 2, True)
+    e_o = std_enum("Mode", 3, False)
+    inn = nested_def("In", 8)
+    al2 = [enum_field("speed", [(0, 1)], e_s), uint_field("speed_raw", [(0, 1)], access="r"), uint_field("mode_raw", [(2, 4)]), enum_field("mode", [(2, 4)], e_o, access="r"), uint_field("byte", [(8, 15)]), sint_field("sbyte", [(8, 15)], access="r"),
+           nested_field("inner", [(16, 23)], inn), uint_field("inner_raw", [(16, 23)], access="r"), uint_field("mix", [(24, 27), (5, 7), (31, 31)]), sint_field("smix", [(24, 27), (5, 7), (31, 31)], access="r"), bool_field("b", 30), uint_field("b_raw", [(30, 30)], access="r")]
+    cases.append(bitfield_case("da_%04d" % n, "dbgf", 32, al2, helpers=[e_s, e_o, inn], debug=True, name="Alias2"))
+    n += 1
     # field names that begin like generated method names, upper-case names
     cases.append(bitfield_case("dw_%04d" % n, "dbgf", 32, [uint_field("with_parity", [(0, 3)]), bool_field("set_point", 4), uint_field("with_", [(5, 6)]), uint_field("IRQ_EN", [(7, 8)]), uint_field("TxData", [(9, 12)]),
                                                           sint_field("get_value", [(16, 23)]), uint_field("with_with_x", [(24, 25)], access="r"), bool_field("r#with", 31) if False else bool_field("withal", 31)], debug=True, name="Prefixes"))
